@@ -371,12 +371,15 @@ def finish(spec, tier, seed, t0, results=None, out=None, inconclusive=None, vali
             "samples": samples or [{"note": "no completed path"}],
             "explanation": "bounded symbolic execution of the real go/ssa of /repo's working tree; states = feasible "
                            "paths explored (each decided feasible by the SMT solver), transitions = symbolic branch "
-                           "decisions, every assertion discharged by a solver query over all inputs on its path",
+                           "decisions; obligations = assertion instances met on those paths: one whose condition is still "
+                           "symbolic there is decided by its own solver query over all inputs of the path, one that the "
+                           "branching before it has already made constant holds for all inputs of that (solver-decided) path",
             "jobs": len(results),
             "paths_by_status": bystatus,
-            "obligations": asserts,
-            "assertions_constant_true_on_their_path": trivial,
-            "discharged": max(0, asserts - sum(1 for v in confirmed if v.get("kind") == "assert")),
+            "obligations": asserts + trivial,
+            "obligations_decided_by_their_own_solver_query": asserts,
+            "obligations_constant_true_on_their_path": trivial,
+            "discharged": max(0, asserts + trivial - sum(1 for v in confirmed if v.get("kind") == "assert")),
             "witnesses_replayed": wit_total,
             "distinct_outcome_classes": obs_classes,
             "functions_encoded": flamego_fns,
@@ -411,9 +414,9 @@ def finish(spec, tier, seed, t0, results=None, out=None, inconclusive=None, vali
 
     for kid, rec in sorted(known_seen.items()):
         print("KNOWN-FINDING: property=%s %s (%s; %d counterexample(s) this run)" % (pid, rec["k"]["what"], kid, rec["n"]))
-    print("%s %s: %d jobs, %d paths %s, %d decisions, %d solver-discharged assertions, %d solver queries (%.1fs solver), "
+    print("%s %s: %d jobs, %d paths %s, %d decisions, %d obligations (%d by their own solver query), %d solver queries (%.1fs solver), "
           "%d/%d witnesses validated natively, %.1fs" % (pid, tier, len(results), paths, json.dumps(bystatus), decisions,
-                                                       asserts, solver["queries"], solver["wall_s"], validated, wit_total,
+                                                       asserts + trivial, asserts, solver["queries"], solver["wall_s"], validated, wit_total,
                                                        time.time() - t0))
     if confirmed:
         os.makedirs(os.path.join(VERIF, "replays"), exist_ok=True)
